@@ -189,6 +189,16 @@ mod native_inst {
     ninst!(r_serde_n16 = ob_serde<16>);
     ninst!(r_serde_n32 = ob_serde<32>);
     ninst!(r_serde_n64 = ob_serde<64>);
+    ninst!(r_reserve_n4 = ob_reserve<4>);
+    ninst!(r_reserve_n8 = ob_reserve<8>);
+    ninst!(r_reserve_n16 = ob_reserve<16>);
+    ninst!(r_reserve_n32 = ob_reserve<32>);
+    ninst!(r_reserve_n64 = ob_reserve<64>);
+    ninst!(r_insert_full_load_n4 = ob_insert_full_load<4, 8>);
+    ninst!(r_insert_full_load_n8 = ob_insert_full_load<8, 16>);
+    ninst!(r_insert_full_load_n16 = ob_insert_full_load<16, 32>);
+    ninst!(r_insert_full_load_n32 = ob_insert_full_load<32, 64>);
+    ninst!(r_insert_full_load_n64 = ob_insert_full_load<64, 128>);
     ninst!(r_map_lookup_n4 = ob_map_lookup<4>);
     ninst!(r_map_lookup_n8 = ob_map_lookup<8>);
     ninst!(r_map_lookup_n16 = ob_map_lookup<16>);
@@ -257,6 +267,16 @@ harnesses! {
     #[kani::unwind(18)] h_iter_n16,
     }
     native {
+        r_reserve_n4,
+        r_reserve_n8,
+        r_reserve_n16,
+        r_reserve_n32,
+        r_reserve_n64,
+        r_insert_full_load_n4,
+        r_insert_full_load_n8,
+        r_insert_full_load_n16,
+        r_insert_full_load_n32,
+        r_insert_full_load_n64,
         r_raw_rustc_entry_n4,
         r_raw_rustc_entry_n8,
         r_raw_rustc_entry_n16,
